@@ -87,6 +87,12 @@ impl World {
         for i in 1..4u8 {
             assets.push(AssetId::new(sha256(&[b"verif-asset", &[i]])));
         }
+        if base != AssetId::zeroed() {
+            // under a non-standard base asset the all-zero id (`AssetId::BASE`) is an ordinary
+            // asset that transactions hold: code that names the constant instead of the
+            // configured base asset then moves the wrong balance instead of failing
+            assets[1] = AssetId::zeroed();
+        }
         let height: BlockHeight = 10u32.into();
         let mut storage = MemoryStorage::new(height, ContractId::new([0xcb; 32]));
         storage.commit();
